@@ -408,11 +408,11 @@ def utf8Enc (c : Nat) : Bytes :=
 /-- `char::from_u32` succeeds -/
 def isScalar (c : Nat) : Bool := c < 0xD800 || (0xE000 ≤ c && c < 0x110000)
 
-/-- `char_from_surrogate_pair(low, high)` **as written**:
-`(((high - 0xD800) as u32) << 10) | ((low - 0xDC00) as u32 + 0x1_0000)` — note the `|`. -/
+/-- `char_from_surrogate_pair(low, high)` as written (after the `fix:` commit 37156b2 in /repo):
+`(((high - 0xD800) as u32) << 10) + (low - 0xDC00) as u32 + 0x1_0000`. -/
 def surrogatePair (low high : Nat) : Option Nat :=
   if 0xDC00 ≤ low ∧ low ≤ 0xDFFF ∧ 0xD800 ≤ high ∧ high ≤ 0xDBFF then
-    let n := ((high - 0xD800) <<< 10) ||| ((low - 0xDC00) + 0x10000)
+    let n := ((high - 0xD800) <<< 10) + (low - 0xDC00) + 0x10000
     if isScalar n then some n else none
   else none
 
